@@ -69,6 +69,7 @@ MENU = {
     'block': ('BLOCK', 'c16.g', ["p = 1", "q = [2,\n       3]", "r = 'three'"]),
     'include': ('INCLUDE', 'inc1.gin'),
     'ref': "c16.f.c = @c16.g()",
+    'block_commented': ('BLOCK', 'c16.g', ["p = 'bc'", "# interior comment\n\n  q = 'after comment'", "r = 0"]),
     'multiline': "c16.f.c = {\n  'k': 1,\n}",
 }
 INC = {
@@ -99,6 +100,10 @@ BLOCK_FAULTS = {
     'm_unknown_param': ("nope = 1", ValueError, 'semantic'),
     'm_unknown_reference': ("p = @c16.nonexistent()", ValueError, 'semantic'),
     'm_dotted_name': ("p.q = 1", SyntaxError, 'syntax'),
+    # the offending member is preceded (inside the block) by a comment and a blank line: the location named must be
+    # the member's own line (offset 2 from where the inserted text starts)
+    'm_unknown_param_after_comment': ("# a comment line\n\n  nope = 1", ValueError, 'semantic', 2),
+    'm_unknown_reference_after_blank': ("\n  p = @c16.nonexistent()", ValueError, 'semantic', 1),
 }
 DHEAD = ['from __gin__ import dynamic_registration', 'import c16mod']
 DMENU = {
@@ -121,6 +126,8 @@ DFAULTS = {
     'd_unknown_param': ("c16mod.f.nope = 1", ValueError, 'semantic'),
     'd_bad_value': ("c16mod.f.z = 1 +", SyntaxError, 'syntax'),
     'd_bad_import': ("import no_such_module_c16d", ImportError, 'semantic'),
+    'd_reserved_gin': ("import math as gin", ValueError, 'semantic'),
+    'd_reserved_gin_from': ("from os import path as gin", ValueError, 'semantic'),
 }
 STARTS = ['empty', 'nonempty', 'unlocked_block', 'in_scope']
 
@@ -208,7 +215,10 @@ def build(files, target, idx, fault_text, block_member=None, block_fault=None, t
 
 def observe(followup=True):
   obs = {}
-  obs['config'] = gin.config_str(show_provenance=True)
+  try:
+    obs['config'] = gin.config_str(show_provenance=True)
+  except Exception as e:  # pylint: disable=broad-except
+    obs['config'] = 'config_str raised %r' % (e,)
   obs['scope'] = gin.current_scope()
   obs['locked'] = gin.config_is_locked()
   obs['contexts'] = len(cfg._PARSE_CONTEXTS)
@@ -217,7 +227,10 @@ def observe(followup=True):
     try:
       with gin.unlock_config():
         gin.parse_config("c16.f.z = 'after'\nc16.g.r = %m1")
-      obs['followup'] = gin.config_str(show_provenance=True)
+      try:
+        obs['followup'] = gin.config_str(show_provenance=True)
+      except Exception as e:  # pylint: disable=broad-except
+        obs['followup'] = 'config_str raised %r' % (e,)
     except Exception as e:  # pylint: disable=broad-except
       obs['followup'] = 'raised %s' % type(e).__name__
     # ... and parsing the very same files again (now without the fault) behaves as in a fresh process
@@ -290,8 +303,10 @@ def check_case(case, res):
     mem_full, chain = build(files, target, idx, ftext)
     mem_ref, _ = build(files, target, idx, ftext, truncate=True)
   else:
-    ftext, fexc, fk = BLOCK_FAULTS[fkind]
+    ftext, fexc, fk = BLOCK_FAULTS[fkind][:3]
     mem_full, chain = build(files, target, idx, None, block_member=member, block_fault=ftext)
+    if len(BLOCK_FAULTS[fkind]) > 3 and chain[0][1] is not None:
+      chain[0] = (chain[0][0], chain[0][1] + BLOCK_FAULTS[fkind][3])
     mem_ref, _ = build(files, target, idx, None, block_member=member, block_fault=ftext, truncate=True)
   nontrivial = idx > (2 if dynamic else 0) or target != 'TOP' or member
   if dynamic:
@@ -314,7 +329,7 @@ def check_case(case, res):
   if diff:
     keys = sorted(diff)
     if member is not None and member >= 1 and fk == 'syntax' or (member is not None and member >= 1 and
-                                                                  fkind == 'm_unknown_reference'):
+                                                                  fkind.startswith('m_unknown_reference')):
       sig = 'block_member_fault_drops_earlier_members'
     elif keys == ['imports'] or set(keys) <= {'imports', 'config', 'followup'} and 'imports' in keys and \
         _only_import_lines_differ(diff):
@@ -397,7 +412,9 @@ def check_provenance(base, res):
       elif isinstance(st, tuple) and st[0] == 'BLOCK':
         l = line + 1
         for m in st[2]:
-          model[('', st[1], m.split(' = ')[0])] = (name, l)
+          mlines = m.split('\n')                      # a member may be preceded by comment / blank lines
+          first = next(i for i, x in enumerate(mlines) if x.strip() and not x.strip().startswith('#'))
+          model[('', st[1], mlines[first].strip().split(' = ')[0])] = (name, l + first)
           l += m.count('\n') + 1
       elif ' = ' in txt and not txt.startswith(('import', 'from')):
         key = txt.split(' = ')[0]
@@ -453,7 +470,7 @@ def gen_cases(tier):
             for idx in range(len(INC[tgt]) + 1):
               yield (list(base), tgt, idx, fkind, None, start)
       for bi, k in enumerate(base):
-        if k == 'block':
+        if k in ('block', 'block_commented'):
           for fkind in BLOCK_FAULTS:
             for member in range(0, 4):
               yield (list(base), 'TOP', bi, fkind, member, start)
